@@ -1,7 +1,7 @@
 FNS = ['fiber_cond_signal', 'fiber_cond_broadcast', 'fiber_cond_wait']
 WEAVE = [dict(file='src/fiber_cond.c', fns=FNS)]
 CAL = ['fiber_manager_get', 'fiber_mutex_lock', 'fiber_mutex_unlock', 'fiber_manager_wake_from_mpsc_queue', 'fiber_manager_wait_in_mpsc_queue_and_unlock']
-GROUPS = [dict(name=f.replace('fiber_cond_', ''), tu='cond.c', harness='h_' + f.replace('fiber_cond_', ''), mode='D', enforce=f, replace=CAL, functions=[f]) for f in FNS] + [
+GROUPS = [dict(name=f.replace('fiber_cond_', ''), tu='cond.c', harness='h_' + f.replace('fiber_cond_', ''), mode='D', enforce=f, replace=CAL, replace_if_called=['fiber_mutex_trylock'], functions=[f]) for f in FNS] + [
     dict(name='lemmas', tu='lemmas.c', kind='lemmas', harness='', no_native='pure lemma')]
 ASSUMPTIONS = ['A5 fewer than 2^30 registered waiters',
                'fiber_mutex_lock/unlock by the contract proved under C03; park-and-unlock / wake by the park layer contract (DESIGN.md 4.2: the mutex is released only after the waiter is enqueued and its context saved) TRUSTED here, enforced under C01']
